@@ -515,7 +515,11 @@ func (c *Compiler) mapKeyCode(typ *runtime.Type) (Code, error) {
 	}
 	switch typ.Kind() {
 	case reflect.Ptr:
-		return c.ptrCode(typ)
+		// a pointer is a map key only through the MarshalText of its element
+		// (anything else would be written as an unquoted value or as null)
+		if typ.Implements(marshalTextType) {
+			return c.ptrCode(typ)
+		}
 	case reflect.String:
 		return c.stringCode(typ, false)
 	case reflect.Int:
